@@ -433,6 +433,19 @@ def run_case(case):
         # b1 and b2 appear twice in total (once alone/padded, once combined): copies may be 2
         note(check_receive(arrivals, originals, obs, compose='repeats'), 'multi', dict(order=[len(a[3]) for a in arrivals]),
              'multi|%s' % ([len(a[3]) for a in arrivals],))
+        # a segment whose extension map also carries other items (Sender Listen usable or not, an unknown key): the segment counts
+        b6 = make_bundle(90, seq=50)
+        cuts6 = [(0, 30), (30, 60), (60, 90)]
+        extras = [{3: 1000, 4: 'dtn://x/'}, {3: 2 ** 40, 4: 'dtn://x/'}, {3: 1000, 4: 12345}, {99: b'zz'}]
+        rng.shuffle(extras)
+        arrivals6 = []
+        for idx, (lo, hi) in enumerate(cuts6):
+            item = dict(extras[idx])
+            item[2] = [33, len(b6), lo, b6[lo:hi]]
+            arrivals6.append(((PEER, 33), lo, hi, cw.enc(item), PEER))
+        rng.shuffle(arrivals6)
+        note(check_receive(arrivals6, {(PEER, 33): b6}, obs), 'segment-with-other-items', dict(extras=[sorted(e) for e in extras[:3]]),
+             'multi3|%s' % ([sorted(e.items(), key=repr) for e in extras[:3]],))
         # random compositions of 2-5 messages (whole bundles, segments of one transfer) with or without zero padding behind them:
         # a bundle message that is neither first nor last in its datagram must still be cut out exactly
         for _rep in range(6):
